@@ -180,6 +180,8 @@ def run_multi(seq, ratios, kind, pidx, layout="asc"):
     import pylife.stress.rainflow.recorders as RFR
     seq = np.array(seq, dtype=float)
     nodes = [11 + 3 * i for i in range(len(ratios))]
+    if layout == "nodes":
+        nodes = nodes[-1:] + nodes[:-1]         # node ids neither ascending nor (for > 2 points) descending: 17, 11, 14
     if layout == "sliced":
         # the signal is a slice of a longer recording: its MultiIndex still carries the dropped load steps as unused level values
         long = np.concatenate([[777.0], seq[:1], [-555.0], seq[1:], [333.0]])
@@ -194,7 +196,8 @@ def run_multi(seq, ratios, kind, pidx, layout="asc"):
         df["load_step"] = _step_labels(len(seq), layout)
         signal = df.set_index("load_step").stack()
         signal.index.names = ["load_step", "node_id"]
-    law = _law(kind, pidx, signal.abs().groupby("node_id").max())
+    # per-point maxima in the order in which the points appear in every load step (the tables are matched by position)
+    law = _law(kind, pidx, signal.abs().groupby("node_id", sort=False).max())
     rec = RFR.FKMNonlinearRecorder()
     det = FN.FKMNonlinearDetector(recorder=rec, notch_approximation_law=law)
     det.process_hcm_first(signal)
@@ -268,17 +271,17 @@ def compare_mirror(seq, kind, pidx):
     return []
 
 
-BATCH_LAYOUTS = ("asc", "desc", "shuffled", "sliced")
+BATCH_LAYOUTS = ("asc", "desc", "shuffled", "sliced", "nodes")
 
 
 def compare_batch(seq, ratios, kind="binned-neuber", pidx=0, layout=None):
     if layout is None:
         # two-point batches additionally with load_step labels that are not ascending and as a slice of a longer signal
         out = []
-        for lay in (BATCH_LAYOUTS if len(ratios) == 2 else BATCH_LAYOUTS[:1]):
+        for lay in (BATCH_LAYOUTS if len(ratios) == 2 else ("asc", "nodes")):
             out += compare_batch(seq, ratios, kind, pidx, lay)
         return out
-    sfx = "" if layout == "asc" else "/load_step-labels-" + layout
+    sfx = "" if layout == "asc" else "/node-ids-not-ascending" if layout == "nodes" else "/load_step-labels-" + layout
     try:
         cm = run_multi(seq, ratios, kind, pidx, layout)
     except Exception as e:  # noqa: BLE001
@@ -328,7 +331,7 @@ def run_shard(shard):
         _, seq, sets = shard
         for ratios in sets:
             acc.cases += 1
-            acc.evaluations += 2 * (1 + len(ratios)) * (len(BATCH_LAYOUTS) if len(ratios) == 2 else 1)
+            acc.evaluations += 2 * (1 + len(ratios)) * (len(BATCH_LAYOUTS) if len(ratios) == 2 else 2)
             if len(ratios) >= 2:
                 acc.nontrivial += 1
             viol = compare_batch(seq, list(ratios))
@@ -341,7 +344,7 @@ def run_shard(shard):
         for seq in block:
             for ratios in sets:
                 acc.cases += 1
-                acc.evaluations += 2 * (1 + len(ratios)) * (len(BATCH_LAYOUTS) if len(ratios) == 2 else 1)
+                acc.evaluations += 2 * (1 + len(ratios)) * (len(BATCH_LAYOUTS) if len(ratios) == 2 else 2)
                 if len(ratios) >= 2:
                     acc.nontrivial += 1
                 for key, detail in compare_batch(seq, list(ratios)):
